@@ -171,7 +171,12 @@ func (vc *FuncVC) setResult(fr *Frame, instr ssa.Instruction, res []any) {
 
 func (vc *FuncVC) doCall(st *State, fr *Frame, instr ssa.Instruction, cc *ssa.CallCommon, mode string) []*State {
 	site := vc.siteName(fr.fn, instr, callTargetName(cc))
-	inTop := len(st.frames) == 1
+	// events inside inlined (uncontracted) helpers are events of the function under verification:
+	// the monitor rules apply to them too; only the site name tells them apart
+	if len(st.frames) > 1 {
+		site += "@" + relName(fr.fn)
+	}
+	inTop := true
 	if mode == "go" {
 		return vc.doGo(st, fr, instr, cc, site)
 	}
@@ -251,6 +256,9 @@ func (vc *FuncVC) callFunction(st *State, fr *Frame, instr ssa.Instruction, call
 	res, ok := vc.libCall(st, fr, instr, callee, args, site)
 	if !ok {
 		res, ok = vc.valueOnlyExternal(st, callee)
+	}
+	if !ok {
+		res, ok = vc.effectFreeExternal(st, callee)
 	}
 	if !ok {
 		vc.unsupportedf("call to external function %s", callee.String())
@@ -685,9 +693,6 @@ func (vc *FuncVC) invokeMethod(st *State, fr *Frame, instr ssa.Instruction, cc *
 		vc.ruleRequires(st, r, site, args)
 	} else if contains(ct.Havoc, "user") {
 		n := "unexpected-call:" + site
-		if !inTop {
-			n += "@" + relName(fr.fn)
-		}
 		vc.addUnreachable(st, "unexpected-call", n, nil)
 	}
 	res := vc.callAbstract(st, fr, instr, ct, cc.Signature(), args, site)
@@ -803,9 +808,6 @@ func (vc *FuncVC) unknownFuncCall(st *State, fr *Frame, instr ssa.Instruction, c
 		vc.ruleRequires(st, rule, site, args)
 	} else {
 		name := "unexpected-call:" + site
-		if !inTop {
-			name += "@" + relName(fr.fn)
-		}
 		vc.addUnreachable(st, "unexpected-call", name, nil)
 	}
 	vc.userEffect(st)
@@ -945,8 +947,35 @@ func (vc *FuncVC) libCall(st *State, fr *Frame, instr ssa.Instruction, callee *s
 		r := st.fresh("errnew", SIface)
 		st.assume(not(eq(r, "nilI")))
 		return []any{V{r, SIface, nil}}, true
+	case "context.Cause":
+		// nil until cancelled, then some non-nil error that need not match ctx.Err() (a cause set by the canceller)
+		vc.trusted["T8 context: Cause(ctx) is nil until ctx is cancelled, then a non-nil error (not necessarily matching Err())"] = true
+		vc.w.declare("ctxCause", "(declare-fun ctxCause (Iface) Iface)")
+		x := args[0].(V)
+		c := st.ghost["cancelled"].T
+		st.ghost["sawCancel"] = V{or(st.ghost["sawCancel"].T, c), SBool, nil}
+		st.event("context.Cause (cancelled=%s)", c)
+		st.assume(not(eq(app("ctxCause", x.T), "nilI")))
+		return []any{V{ite(c, app("ctxCause", x.T), "nilI"), SIface, nil}}, true
 	case "fmt.Sprintf", "fmt.Sprint":
 		return []any{V{st.fresh("sprintf", SStr), SStr, types.Typ[types.String]}}, true
+	case "time.NewTimer":
+		// T7 for timers: t.C is not ready before the moment of creation (or of the last Reset) plus d
+		vc.trusted["T7 time.NewTimer(d)/Reset(d): the timer's channel is not ready before now+d; Stop has no effect the proofs rely on"] = true
+		d := args[0].(V)
+		ref := st.alloc("timer")
+		ref.GT = callee.Signature.Results().At(0).Type()
+		st.ghost["timer:"+ref.T] = V{app("+", st.ghost["now"].T, d.T), "timer", nil}
+		return []any{ref}, true
+	case "(*time.Timer).Stop":
+		return []any{st.freshV("timerstop", types.Typ[types.Bool])}, true
+	case "(*time.Timer).Reset":
+		t, d := args[0].(V), args[1].(V)
+		if _, ok := st.ghost["timer:"+t.T]; !ok {
+			return nil, false
+		}
+		st.ghost["timer:"+t.T] = V{app("+", st.ghost["now"].T, d.T), "timer", nil}
+		return []any{st.freshV("timerreset", types.Typ[types.Bool])}, true
 	case "time.After":
 		vc.trusted["T7 time.After(d): the channel is not ready before now+d"] = true
 		d := args[0].(V)
@@ -954,6 +983,9 @@ func (vc *FuncVC) libCall(st *State, fr *Frame, instr ssa.Instruction, callee *s
 		st.assume(app(">", ch, "0"))
 		st.ghost["chan:"+ch] = V{app("+", st.ghost["now"].T, d.T), "timer", nil}
 		return []any{V{ch, SInt, nil}}, true
+	}
+	if strings.HasPrefix(name, "maps.Clone[") || strings.HasPrefix(name, "maps.Copy[") || strings.HasPrefix(name, "slices.Clone[") {
+		return vc.cloneCall(st, fr, instr, callee, args)
 	}
 	if strings.HasPrefix(name, "(*sync.") {
 		return vc.syncCall(st, fr, instr, callee, args, site)
@@ -977,7 +1009,11 @@ func (vc *FuncVC) doSelect(st *State, fr *Frame, in *ssa.Select) []*State {
 	for _, s := range in.States {
 		ch := vc.valV(st, fr, s.Chan)
 		ci := caseInfo{kind: "chan", ch: ch}
-		if g, ok := st.ghost["chan:"+ch.T]; ok {
+		if tref, ok := vc.timerOf(st, fr, s.Chan); ok {
+			if g, ok := st.ghost["timer:"+tref]; ok {
+				ci.kind, ci.aux = "timer", g.T
+			}
+		} else if g, ok := st.ghost["chan:"+ch.T]; ok {
 			ci.kind = g.S
 			if g.S == "chankind" {
 				ci.kind = g.T
@@ -1048,13 +1084,36 @@ func (vc *FuncVC) doSelect(st *State, fr *Frame, in *ssa.Select) []*State {
 		st.ghost[fmt.Sprintf("lastRecv%d", i-2)] = tup[i].(V)
 	}
 	st.event("select -> %s", idx)
-	if len(st.frames) == 1 {
-		if r := vc.findRule("select", "any"); r != nil {
-			vc.ruleRequires(st, r, "select", nil)
-			vc.ruleEffects(st, r, "select", nil, nil)
-		}
+	if r := vc.findRule("select", "any"); r != nil {
+		vc.ruleRequires(st, r, "select", nil)
+		vc.ruleEffects(st, r, "select", nil, nil)
 	}
 	return nil
+}
+
+// timerOf: the channel operand is t.C for a *time.Timer t created in this activation.
+func (vc *FuncVC) timerOf(st *State, fr *Frame, ch ssa.Value) (string, bool) {
+	u, ok := ch.(*ssa.UnOp)
+	if !ok {
+		return "", false
+	}
+	fa, ok := u.X.(*ssa.FieldAddr)
+	if !ok {
+		return "", false
+	}
+	pt, ok := fa.X.Type().Underlying().(*types.Pointer)
+	if !ok {
+		return "", false
+	}
+	nt, ok := pt.Elem().(*types.Named)
+	if !ok || nt.Obj().Pkg() == nil || nt.Obj().Pkg().Path() != "time" || nt.Obj().Name() != "Timer" {
+		return "", false
+	}
+	t, ok := vc.val(st, fr, fa.X).(V)
+	if !ok {
+		return "", false
+	}
+	return t.T, true
 }
 
 // ---------------------------------------------------------------- defers
@@ -1091,7 +1150,10 @@ func (vc *FuncVC) continueDefers(st *State, fr *Frame) []*State {
 func (vc *FuncVC) invokeDeferred(st *State, fr *Frame, d deferred) []*State {
 	cc := d.instr.Common()
 	site := vc.siteName(fr.fn, d.instr, callTargetName(cc))
-	inTop := len(st.frames) == 1
+	if len(st.frames) > 1 {
+		site += "@" + relName(fr.fn)
+	}
+	inTop := true
 	if cc.IsInvoke() {
 		recv := d.fn.(V)
 		args := append([]any{recv}, d.args...)
@@ -1119,10 +1181,7 @@ func (vc *FuncVC) doGo(st *State, fr *Frame, instr ssa.Instruction, cc *ssa.Call
 	vc.trusted["T4 a go statement starts exactly one goroutine running the given call"] = true
 	target := callTargetName(cc)
 	args := vc.evalArgs(st, fr, cc)
-	var r *CallRule
-	if len(st.frames) == 1 {
-		r = vc.findRule("go", target)
-	}
+	r := vc.findRule("go", target)
 	if r == nil {
 		vc.addUnreachable(st, "unexpected-go", "unexpected-go:"+site, nil)
 		return nil
@@ -1132,6 +1191,112 @@ func (vc *FuncVC) doGo(st *State, fr *Frame, instr ssa.Instruction, cc *ssa.Call
 	st.ghost["spawned"] = V{app("+", st.ghost["spawned"].T, "1"), SInt, nil}
 	st.event("go %s", target)
 	return nil
+}
+
+// cloneCall: maps.Clone, maps.Copy, slices.Clone (the generic library idioms for the hand-written copy loops).
+func (vc *FuncVC) cloneCall(st *State, fr *Frame, instr ssa.Instruction, callee *ssa.Function, args []any) ([]any, bool) {
+	w := vc.w
+	name := callee.String()
+	var argVals []ssa.Value
+	if ci, ok := instr.(ssa.CallInstruction); ok {
+		argVals = ci.Common().Args
+	}
+	vc.trusted["maps.Clone / maps.Copy / slices.Clone behave as documented (shallow copies)"] = true
+	switch {
+	case strings.HasPrefix(name, "maps.Clone["):
+		mt, ok := callee.Signature.Params().At(0).Type().Underlying().(*types.Map)
+		if !ok || len(argVals) < 1 {
+			return nil, false
+		}
+		m := args[0].(V)
+		vc.checkMapRead(st, fr, argVals[0], m, instr)
+		ref := st.alloc("map")
+		dn, dso, vn, vso := mapHeaps(w, mt)
+		dom, val := st.heapGet(dn, dso), st.heapGet(vn, vso)
+		st.heapSet(dn, dso, sto(dom, ref.T, sel(dom, m.T)))
+		st.heapSet(vn, vso, sto(val, ref.T, sel(val, m.T)))
+		return []any{V{ite(eq(m.T, "0"), "0", ref.T), SInt, callee.Signature.Results().At(0).Type()}}, true
+	case strings.HasPrefix(name, "maps.Copy["):
+		mt, ok := callee.Signature.Params().At(0).Type().Underlying().(*types.Map)
+		if !ok || len(argVals) < 2 {
+			return nil, false
+		}
+		dst, src := args[0].(V), args[1].(V)
+		vc.checkMapWrite(st, fr, argVals[0], dst, instr)
+		vc.checkMapRead(st, fr, argVals[1], src, instr)
+		ks, vs := w.sortOf(mt.Key()), w.sortOf(mt.Elem())
+		dn, dso, vn, vso := mapHeaps(w, mt)
+		dom, val := st.heapGet(dn, dso), st.heapGet(vn, vso)
+		sd := ite(eq(src.T, "0"), w.zero(arraySort(ks, SBool)), sel(dom, src.T))
+		vc.nopanic(st, "copy-into-nil-map", instr, or(not(eq(dst.T, "0")), eq(sd, w.zero(arraySort(ks, SBool)))))
+		nd := st.fresh("copydom", arraySort(ks, SBool))
+		nv := st.fresh("copyval", arraySort(ks, vs))
+		st.assume(fmt.Sprintf("(forall ((k %s)) (! (= (select %s k) (or (select %s k) (select %s k))) :pattern ((select %s k))))", ks, nd, sel(dom, dst.T), sd, nd))
+		st.assume(fmt.Sprintf("(forall ((k %s)) (! (= (select %s k) (ite (select %s k) (select %s k) (select %s k))) :pattern ((select %s k))))", ks, nv, sd, sel(val, src.T), sel(val, dst.T), nv))
+		st.heapSet(dn, dso, ite(eq(dst.T, "0"), dom, sto(dom, dst.T, nd)))
+		st.heapSet(vn, vso, ite(eq(dst.T, "0"), val, sto(val, dst.T, nv)))
+		return nil, true
+	case strings.HasPrefix(name, "slices.Clone["):
+		stp, ok := callee.Signature.Params().At(0).Type().Underlying().(*types.Slice)
+		if !ok {
+			return nil, false
+		}
+		s := args[0].(V)
+		es := w.sortOf(stp.Elem())
+		hn, hs := elemsHeap(es)
+		arr := st.alloc("arr")
+		cur := st.heapGet(hn, hs)
+		na := st.fresh("clonearr", arraySort(SInt, es))
+		st.assume(fmt.Sprintf("(forall ((j Int)) (! (=> (and (<= 0 j) (< j (slen %s))) (= (select %s j) (select %s (+ (soff %s) j)))) :pattern ((select %s j))))", s.T, na, sel(cur, app("sarr", s.T)), s.T, na))
+		st.heapSet(hn, hs, sto(cur, arr.T, na))
+		ncap := st.fresh("clonecap", SInt)
+		st.assume(app(">=", ncap, app("slen", s.T)))
+		st.assume(intRange(types.Typ[types.Int], ncap))
+		r := ite(eq(app("sarr", s.T), "0"), s.T, app("mkSlice", arr.T, "0", app("slen", s.T), ncap))
+		return []any{V{r, SSlice, callee.Signature.Results().At(0).Type()}}, true
+	}
+	return nil, false
+}
+
+// effectFreeExternal: logging, printing, formatting, string/number helpers and clock reads. They cannot
+// reach framework state (assumption: String()/Error()/Format methods they may invoke on their operands are
+// pure); results are unconstrained values of their types. Functions that end the process or panic by design
+// (log.Fatal*, log.Panic*) are not in the list.
+func (vc *FuncVC) effectFreeExternal(st *State, callee *ssa.Function) ([]any, bool) {
+	name := callee.String()
+	ok := false
+	for _, p := range []string{"log.Print", "(*log.Logger).Print", "log.Default", "log.New", "fmt.Print", "fmt.Fprint", "fmt.Sprint", "fmt.Append",
+		"strings.", "strconv.", "math.", "unicode.", "unicode/utf8.", "time.Now", "time.Since", "time.Until", "(time.Time).", "(time.Duration).",
+		"os.Getenv", "errors.Unwrap", "log/slog.Debug", "log/slog.Info", "log/slog.Warn", "log/slog.Error", "(*log/slog.Logger).Debug", "(*log/slog.Logger).Info",
+		"(*log/slog.Logger).Warn", "(*log/slog.Logger).Error", "log/slog.Default", "log/slog.String", "log/slog.Int", "log/slog.Any",
+		"(*sync/atomic.Int64).", "(*sync/atomic.Int32).", "sync/atomic.AddInt64", "sync/atomic.AddInt32", "sync/atomic.LoadInt64", "sync/atomic.LoadInt32"} {
+		if strings.HasPrefix(name, p) {
+			ok = true
+			break
+		}
+	}
+	if !ok {
+		return nil, false
+	}
+	sig := callee.Signature
+	for i := 0; i < sig.Params().Len(); i++ {
+		if _, isFunc := sig.Params().At(i).Type().Underlying().(*types.Signature); isFunc {
+			return nil, false
+		}
+	}
+	var res []any
+	for i := 0; i < sig.Results().Len(); i++ {
+		rt := sig.Results().At(i).Type()
+		so := vc.w.sortOf(rt)
+		if so == "Opaque" || so == "Tuple" {
+			return nil, false
+		}
+		v := st.freshV("ext_"+callee.Name(), rt)
+		vc.assumeTypeWF(st, v, rt)
+		res = append(res, v)
+	}
+	vc.trusted["external function "+name+": logging/formatting/clock helper, modelled as having no effect on framework state (String/Error/Format methods it may call are assumed pure) and unconstrained results"] = true
+	return res, true
 }
 
 // valueOnlyExternal: an external function all of whose parameters are plain
